@@ -21,7 +21,14 @@ import (
 	"symx/interp"
 )
 
-const repo = "/repo"
+// repo is the tree under test: /repo, or a snapshot of it for background runs (VERIF_REPO); the registered
+// commands never set the variable.
+var repo = func() string {
+	if r := os.Getenv("VERIF_REPO"); r != "" {
+		return r
+	}
+	return "/repo"
+}()
 const modPath = "github.com/compose-spec/compose-go/v2"
 
 type HarnessSpec struct {
@@ -64,6 +71,7 @@ func fatal(f string, a ...interface{}) {
 }
 
 func main() {
+	interp.SchemaPath = filepath.Join(repo, "schema", "compose-spec.json")
 	if len(os.Args) < 2 {
 		fatal("usage: symx check <ID> [--tier quick|thorough] | symx replay <dir> | symx selftest")
 	}
